@@ -11,6 +11,17 @@
 
 let fuel = nat_of_int 5000
 
+(* extraction cross-check (bin/coqreplay_c22.py): with ORACLE_DUMP=<file> the numbers the EXTRACTED
+   models compute for the sequential cases (kinds 1, 2, 6, 7: per call the model's result code,
+   value, Size, Capacity / latch) are appended to that file; the script recomputes them inside
+   Coq by vm_compute over the same step functions.  The linearizability search (kinds 3, 4) is
+   OCaml only. *)
+let dump_chan = match Sys.getenv_opt "ORACLE_DUMP" with
+  | Some p when p <> "" -> Some (open_out_gen [Open_append; Open_creat] 0o644 p)
+  | _ -> None
+let dump_buf : int list ref = ref []
+let dpush l = if dump_chan <> None then dump_buf := List.rev_append l !dump_buf
+
 let rec nth_opt l i = match l with [] -> None | x :: r -> if i = 0 then Some x else nth_opt r (i - 1)
 let rec last_opt l = match l with [] -> None | [x] -> Some x | _ :: r -> last_opt r
 let is_pow2 n = n > 0 && n land (n - 1) = 0
@@ -77,6 +88,7 @@ let check_mpmc_seq cap exts valid ops =
          | 0 ->
            let m = run_one () in
            let mres = (match m with Some (RSend (_, true)) -> 1 | Some (RSend (_, false)) -> 0 | None -> 2 | _ -> -1) in
+           dpush [mres; 0];
            if mres <> o.res then diff i "Send(%d): model %d impl %d" o.arg mres o.res;
            if o.res = 1 then feed i (EEnq (O, n_of_int o.arg))
            else if o.res = 0 then feed i (EEnqFail O)
@@ -85,6 +97,7 @@ let check_mpmc_seq cap exts valid ops =
            else prop i "Send did not return even after its context was cancelled"
          | 1 ->
            let m = run_one () in
+           dpush (match m with Some (RRecv (Some v)) -> [1; int_of_n v] | Some (RRecv None) -> [0; 0] | None -> [2; 0] | _ -> [7; 0]);
            (match m, o.res with
             | Some (RRecv (Some v)), 1 when int_of_n v = o.value -> ()
             | Some (RRecv None), 0 -> ()
@@ -121,6 +134,7 @@ let check_mpmc_seq cap exts valid ops =
            done;
            ignore (run_one ());
            let got = List.rev !got in
+           dpush (List.length got :: got);
            if got <> o.vals then
              diff i "Seq take %d: model [%s] impl [%s]" o.arg
                (String.concat "," (List.map string_of_int got))
@@ -131,6 +145,7 @@ let check_mpmc_seq cap exts valid ops =
            feed i (EClose O)
          | _ -> ());
         let msize = int_of_nat (size !s.g) and mcap = int_of_nat !s.g.cap in
+        dpush [msize; mcap];
         if msize <> o.size then diff i "Size: model %d impl %d" msize o.size;
         if mcap <> o.capn then diff i "Capacity: model %d impl %d" mcap o.capn;
         if !s.g.panicked then diff i "model panicked") ops;
@@ -181,6 +196,9 @@ let check_mpsc_seq nprod ops =
         run_call O (fun st -> List.length st.cons.cres);
         let finished = List.length !s.cons.cres > before in
         let m = if finished then last_opt !s.cons.cres else None in
+        dpush (match m with
+            | Some (CRRecv (Some v)) | Some (CRTry (Some v)) -> [1; int_of_n v]
+            | Some _ -> [0; 0] | None -> [2; 0]);
         (match m, r with
          | Some (CRRecv (Some v)), 1 when c = 1 && int_of_n v = x -> ()
          | Some (CRTry (Some v)), 1 when c = 4 && int_of_n v = x -> ()
@@ -210,6 +228,9 @@ let check_mpsc_seq nprod ops =
         run_call tid nres;
         let m = (match nth_opt !s.prods k with
             | Some p when List.length p.pres > before -> last_opt p.pres | _ -> None) in
+        dpush (match m with
+            | Some (PRSend (_, true)) -> [1; 0] | Some (PRSend (_, false)) -> [0; 0]
+            | Some PRClose -> [3; 0] | Some PRCloseNoop -> [4; 0] | None -> [2; 0]);
         if c = 0 then begin
           (match m, r with
            | Some (PRSend (_, true)), 1 | Some (PRSend (_, false)), 0 -> ()
@@ -363,6 +384,7 @@ let check_probe variant (obs : (int * int) list) =
     let t = go l in
     if List.length t < ncalls && List.for_all (fun (r, _) -> r = 1) t then t @ [(2, 0)] else t in
   let verdict expected =
+    dpush (List.concat_map (fun (r, v) -> [r; v]) expected);
     if expected = obs then "OK"
     else if List.exists (fun (r, _) -> r = 2 || r = 9) obs && not (List.exists (fun (r, _) -> r = 2) expected)
     then Printf.sprintf "PROP lost wake-up: a call placed between the empty/full check and the park left the parked side asleep although it could proceed (variant %d: model %s, implementation %s)" variant (show expected) (show obs)
@@ -411,6 +433,7 @@ let check_probe variant (obs : (int * int) list) =
         | Some th -> (match last_opt th.res with Some (RRecv (Some v)) -> int_of_n v | _ -> 0) | None -> -1) in
     verdict [(sent, got); (int_of_nat (size s.g), 0)]
   | 9 ->
+    dpush [if model_reproduces_lost_wakeup () then 1 else 0];
     (match obs with
      | [(values, parked); (buffered, _)] ->
        if values = 78 || values = 87 then "OK"   (* both receivers returned: nothing lost *)
@@ -456,6 +479,7 @@ let check_medium kind capn ops =
               | MRSend true -> (1, 0) | MRSend false -> (0, 0)
               | MRRecv (Some v) -> (1, int_of_n v) | MRRecv None -> (0, 0)
               | MRBlock -> (2, 0) | MRClose -> (0, 0) | MRPanic -> (7, 0)) in
+          dpush [fst mres; snd mres; if s1.latch then 1 else 0];
           if mres <> (res, value) then
             diff i "%s: model (%d,%d) implementation (%d,%d)"
               (match code with 0 -> "Send" | 1 -> "Recv" | _ -> "Close") (fst mres) (snd mres) res value;
@@ -484,7 +508,7 @@ let check_medium kind capn ops =
   | [], _ :: _ -> "DIFF " ^ String.concat "; " (List.rev !diffs)
   | [], [] -> "OK"
 
-let f _id vs =
+let f0 _id vs =
   match vs with
   | [I "1"; cap; exts; valid; ops] -> check_mpmc_seq (as_int cap) (as_int exts) (as_int valid) (as_list ops)
   | [I "2"; nprod; ops] -> check_mpsc_seq (as_int nprod) (as_list ops)
@@ -498,5 +522,14 @@ let f _id vs =
   | [I "7"; kind; capn; ops] -> check_medium (as_int kind) (as_int capn) (as_list ops)
   | [I "8"; _rounds; _observed] -> "OK"   (* an observation is reported by the driver as !PROP *)
   | _ -> "DIFF malformed-record"
+
+let f id vs =
+  dump_buf := [];
+  let v = f0 id vs in
+  (match dump_chan with
+   | Some oc when !dump_buf <> [] ->
+     output_string oc (id ^ " " ^ String.concat " " (List.map string_of_int (List.rev !dump_buf)) ^ "\n"); flush oc
+   | _ -> ());
+  v
 
 let () = run_oracle f
